@@ -60,7 +60,7 @@ package tablist
 //@   props C28
 //@   requires held(t.RWMutex) == wlocked
 //@   at-call ContainsAction#1 as cAdd: assert ref(arg0) == ref(actions) && arg1 == playerinfo.AddPlayerAction
-//@   at-call mapupdate:EntriesByID as create: assert [add-creates-a-missing-entry-under-its-id] called(cAdd) && res(cAdd) && arg0 == t.EntriesByID && arg1 == info.ProfileID && currentEntry != nil
+//@   at-call mapupdate:EntriesByID as create: assert [add-creates-a-missing-entry-under-its-id] called(cAdd) && res(cAdd) && arg0 == t.EntriesByID && arg1 == info.ProfileID && t.EntriesByID[info.ProfileID] == nil
 //@   at-call ContainsAction#2 as cGM: assert arg1 == playerinfo.UpdateGameModeAction
 //@   at-call ContainsAction#3 as cLat: assert arg1 == playerinfo.UpdateLatencyAction
 //@   at-call ContainsAction#4 as cDN: assert arg1 == playerinfo.UpdateDisplayNameAction
